@@ -312,6 +312,19 @@ def _mirsym():
         ["engine::operators::binary_operator::<impl VecOperator for NullableCheckedBinary*Operator>::execute", "numeric_operators::*::perform_checked"],
         bounds="1-2 rows (quick) / 0-3, 9 rows (thorough); operands and null-map bytes symbolic", spec=so.NullableCheckedSpec(), stubs=stubs)
 
+    from .specs import operators2 as so2
+    add("C03.d/binary_loops", "C03", "mirsym", Q, "Binary{,VS,SV}Operator::execute with the comparison kernels (<, <=, =, <> on mixed integer widths) and BoolOr/BoolAnd: one output per row, out[i] = (l OP r) on the integer values",
+        ["<BinaryOperator<L,R,u8,Op> as VecOperator>::execute", "<BinaryVSOperator<..>>::execute", "<BinarySVOperator<..>>::execute", "comparison_operators::{LessThan,LessThanEquals,Equals,NotEquals,BoolOr,BoolAnd}::perform", "Widen::widen"],
+        bounds="n in {0,2} (quick) / {0,1,2,3,5} (thorough) rows, all values symbolic; 7 (quick) / 12 (thorough) (form, kernel, widths) instantiations", spec=so2.BinaryLoopSpec(), stubs=["Scratchpad accessors -> obligation-owned buffers"])
+    add("C03.d/is_null", "C03", "mirsym", Q, "IsNull / IsNotNull::execute: out[i] = 1 exactly when row i is NULL / present; one byte per row",
+        ["<IsNull as VecOperator>::execute", "<IsNotNull as VecOperator>::execute", "<[u8] as BitVec>::is_set"], bounds="n in {0,3,9} (quick) / {0,1,3,8,9,17} rows, bitmap symbolic", spec=so2.IsNullSpec(), stubs=["Scratchpad accessors -> obligation-owned buffers"])
+    add("C03.d/combine_null_maps", "C03", "mirsym", Q, "CombineNullMaps::execute: row present iff present on both sides",
+        ["<CombineNullMaps as VecOperator>::execute"], bounds="n in {0,3,9} (quick) / {0,1,8,9,16,17} rows, both bitmaps symbolic; output pre-sized as init() does", spec=so2.CombineNullMapsSpec(), stubs=["Scratchpad accessors -> obligation-owned buffers"])
+    add("C06.d/checked_loops", "C06", "mirsym", Q, "CheckedBinary{,VS,SV}Operator<i64,i64,i64,Op>::execute (non-nullable): Err(Overflow) iff some row overflows, otherwise exact per-row results",
+        ["<CheckedBinaryOperator<..> as VecOperator>::execute", "<CheckedBinaryVSOperator<..>>::execute", "<CheckedBinarySVOperator<..>>::execute", "numeric_operators::{Addition,Subtraction,Multiplication}::perform_checked"],
+        bounds="n in {0,2} (quick) / {0..3} (thorough) rows, all values symbolic; add, sub (quick) + mul (thorough)", spec=so2.CheckedLoopSpec(), stubs=["Scratchpad accessors -> obligation-owned buffers"])
+    add("C06.d/type_conversion", "C06", "mirsym", Q, "TypeConversionOperator<T,U>::execute for the widening conversions inserted before arithmetic: value preserved, one output per row",
+        ["<TypeConversionOperator<T,U> as VecOperator>::execute", "type_conversion::Cast::cast"], bounds="n in {0,2} (quick) / {0,1,3}; (u8|u16|u32)->i64 quick, + u8->u32, u16->u32, u8->u16 thorough", spec=so2.TypeConversionSpec(), stubs=["Scratchpad accessors -> obligation-owned buffers"])
     from .specs import xorfloat as sx
     add("C16.b/xor_float", "C16", "mirsym", Q,
         "xor_float::double::encode then decode: every f64 comes back bit-exact (mantissa None) or with sign, exponent and the requested leading mantissa bits (mantissa Some(m)); covers the first-window and the window-reuse branch",
